@@ -14,8 +14,9 @@ REQUIRED = ['adj_split', 'clearance', 'inside_grown', 'coverage', 'rounded_apart
             'order_sorted_rounded', 'sortedSetDesc_desc', 'mem_sortedSetDesc', 'remove_exact', 'keepFrom_eq_filter', 'remove_length',
             'remove_out_of_range', 'dig_spec']
 RULE = ('Layouts of 1..6 real Waveguide objects (straight, tilted, crossing, sin/arc S-bends, couplers, 3-D bridges, guides that start '
-        'or end inside the column or just outside it, a guide along the column edge) or raw arrays, and random column parameters '
-        '(centre, extent, length, bridge, beam waist, corner radius incl. 0) go through the real dig_from_waveguide / dig_from_array.  '
+        'or end inside the column or just outside it, a guide along the column edge, a short guide wholly inside the column) or raw arrays, and random column parameters '
+        '(centre, extent, length, bridge, beam waist, corner radius incl. 0) go through the real dig_from_waveguide / dig_from_array; in 25 % of the cases the column object was used before with another '
+        'geometry (rectangle read, one dig) and then had its public fields set to the case\'s values.  '
         'Measured with shapely on the resulting Trench.block polygons: min distance block-to-written-polyline (own extraction from the '
         'point matrix, shutter open) >= bridge/2 + waist - 0.6 % adj; block covered by rect grown by the corner radius; pairwise '
         'intersection area <= 1e-10; 1500 random points of the rectangle farther than adj(1+0.1 %) from every guide must lie in a '
@@ -43,7 +44,7 @@ CLAIM = {
     'technique': 'Lean 4 proof (metric-space triangle inequality; list induction) + differential correspondence; GEOS sampled (partial)',
 }
 
-INFO_KEYS = ('col', 'guides', 'mode', 'remove')
+INFO_KEYS = ('col', 'guides', 'mode', 'remove', 'reused')
 
 
 # ------------------------------------------------------------------------------------------------------------------
@@ -64,7 +65,7 @@ def gen_guides(rng, col):
     out = []
     for k in range(n):
         kind = rng.choice(['straight', 'straight', 'tilted', 'tilted', 'sbend', 'arc', 'coupler', 'bridge', 'ends_inside',
-                           'starts_inside', 'ends_outside', 'edge'])
+                           'starts_inside', 'ends_outside', 'edge', 'island'])
         y = round(rng.uniform(y0 + 0.05 * H, y1 - 0.05 * H), 4)
         g = {'kind': kind, 'y': y, 'xa': round(x0 - rng.choice([0.5, 1.0, 0.2]), 4), 'xb': round(x1 + rng.choice([0.5, 1.0, 0.2]), 4)}
         if kind == 'tilted':
@@ -83,6 +84,10 @@ def gen_guides(rng, col):
             g['xb'] = round(x1 + rng.uniform(0.001, 0.06), 4)
         elif kind == 'edge':
             g['y'] = rng.choice([y0, y1, round(y1 - 0.01, 4), round(y0 + 0.012, 4)])
+        elif kind == 'island':
+            # a short guide wholly inside the column: the block around it has an opening
+            xm = x0 + rng.uniform(0.3, 0.7) * (x1 - x0)
+            g['xa'], g['xb'] = round(xm - 0.08 * (x1 - x0), 4), round(xm + 0.08 * (x1 - x0), 4)
         out.append(g)
     # at least one guide passes through the column
     if not any(g['kind'] in ('straight', 'tilted', 'sbend', 'arc', 'coupler', 'bridge') for g in out):
@@ -101,7 +106,7 @@ def build_guide(g):
         wg.start([xa, y, 0.035]).linear([xb, y + dy, 0.035], mode='ABS')
         wg.end()
         return wg
-    if kind in ('straight', 'ends_inside', 'starts_inside', 'ends_outside', 'edge'):
+    if kind in ('straight', 'ends_inside', 'starts_inside', 'ends_outside', 'edge', 'island'):
         return [straight(g['y'], g['xa'], g['xb'])]
     if kind == 'tilted':
         return [straight(g['y'], g['xa'], g['xb'], g['dy'])]
@@ -143,10 +148,22 @@ def open_polyline(wg):
     return pts
 
 
-def dig(colkw, wgs, mode, remove):
+def dig(colkw, wgs, mode, remove, reused=False):
     import numpy as np
     from femto.trench import TrenchColumn
-    tc = TrenchColumn(**colkw)
+    if reused:
+        # the column object existed before with another geometry (its rectangle was looked at, it dug once); then its public
+        # fields were set to the values of this case: the blocks must be those of the values it has now
+        other = dict(colkw, x_center=colkw['x_center'] + 2.5, y_min=colkw['y_min'] - 0.6, y_max=colkw['y_max'] - 0.4, length=colkw['length'] * 0.5)
+        tc = TrenchColumn(**other)
+        _ = tc.rect, tc.adj_bridge
+        with core.quiet():
+            tc.dig_from_array([np.array([[other['x_center'] - 1, (other['y_min'] + other['y_max']) / 2], [other['x_center'] + 1, (other['y_min'] + other['y_max']) / 2]])])
+        tc._trench_list.clear()
+        for k, v in colkw.items():
+            setattr(tc, k, v)
+    else:
+        tc = TrenchColumn(**colkw)
     with core.quiet():
         if mode == 'wg':
             tc.dig_from_waveguide(wgs, remove=remove)
@@ -165,7 +182,7 @@ def check_case(ctx, case, nsample=1500):
     import shapely
     from shapely import geometry
     col, mode, remove = case['col'], case['mode'], case['remove']
-    info = {k: case[k] for k in INFO_KEYS}
+    info = {k: case.get(k) for k in INFO_KEYS}
     wgs = [w for g in case['guides'] for w in build_guide(g)]
     lines = [geometry.LineString(open_polyline(w)) for w in wgs]
     rect = geometry.box(col['x_center'] - col['length'] / 2, col['y_min'], col['x_center'] + col['length'] / 2, col['y_max'])
@@ -175,7 +192,7 @@ def check_case(ctx, case, nsample=1500):
     if not any(l.intersects(rect) for l in lines):
         return None
     try:
-        tc = dig(col, wgs, mode, None)
+        tc = dig(col, wgs, mode, None, reused=bool(case.get('reused')))
     except Exception as e:
         ctx.fail('spec', 'dig', info, f'dig raised {type(e).__name__}: {e}', 'dig:raised')
         return None
@@ -261,6 +278,7 @@ def check_case(ctx, case, nsample=1500):
         ctx.count('dig.blocks', str(min(len(blocks), 6)) + ('+' if len(blocks) >= 6 else ''))
         ctx.count('dig.raw_blocks', str(min(len(raw), 6)))
         ctx.count('dig.mode', mode)
+        ctx.count('dig.history', 'column-reused-with-new-geometry' if case.get('reused') else 'fresh')
         for g in case['guides']:
             ctx.count('dig.guide', g['kind'])
         ctx.count('dig.rc', 'zero' if rc == 0 else 'pos')
@@ -286,7 +304,7 @@ def check_case(ctx, case, nsample=1500):
             return
         # removal
         try:
-            tc2 = dig(col, wgs, mode, list(remove))
+            tc2 = dig(col, wgs, mode, list(remove), reused=bool(case.get('reused')))
             got = [t.block for t in tc2]
             raised = None
         except IndexError as e:
@@ -324,7 +342,7 @@ def gen_case(rng):
     guides = gen_guides(rng, col)
     mode = rng.choice(['wg', 'wg', 'arr', 'arrT'])
     r = rng.random()
-    case = {'col': col, 'guides': guides, 'mode': mode, 'remove': None, 'pseed': rng.randrange(1 << 30)}
+    case = {'col': col, 'guides': guides, 'mode': mode, 'remove': None, 'pseed': rng.randrange(1 << 30), 'reused': rng.random() < 0.25}
     if r < 0.15:
         pass
     elif r < 0.22:
@@ -377,7 +395,7 @@ def run(ctx):
 
 def replay(ctx, payload):
     c = payload['case']
-    case = {k: c[k] for k in INFO_KEYS}
+    case = {k: c.get(k) for k in INFO_KEYS}
     case['pseed'] = c.get('pseed', 0)
     r = check_case(ctx, case, nsample=4000)
     if r:
